@@ -51,8 +51,42 @@ class HeapView:
         return ht
 
 
-def view(root, into_functions: bool = True) -> HeapView:
-    nodes = list(reflect.walk(root, into_functions=into_functions))
+def walk_many(roots, into_functions: bool = True) -> list:
+    """post-order over several roots into ONE numbering (objects by id): input and output
+    graph of a transformation share the numbers of the objects they share"""
+    import sys
+    seen: set[int] = set()
+    order: list = []
+
+    def rec(n):
+        if id(n) in seen:
+            return
+        seen.add(id(n))
+        for _, c in reflect.children(n, into_functions=into_functions):
+            rec(c)
+        order.append(n)
+    old = sys.getrecursionlimit()
+    sys.setrecursionlimit(max(old, 20000))
+    try:
+        for r in roots:
+            rec(r)
+    finally:
+        sys.setrecursionlimit(old)
+    return order
+
+
+def view_many(roots, into_functions: bool = True, attr_ignore=()) -> tuple[HeapView, list[int]]:
+    """combined heap of several graphs -> (view, number of each root).  The nodes of the first
+    root come first, so `view_many([g])` followed by `view_many([g, transformed])` gives heaps of
+    which the second extends the first iff `g` was left structurally unchanged.
+    `attr_ignore`: dataclass field names left out of the attribute fingerprint (e.g. ("axes",)
+    to compare up to axis tags)."""
+    v = view(None, into_functions, _nodes=walk_many(roots, into_functions), attr_ignore=attr_ignore)
+    return v, [v.index[id(r)] for r in roots]
+
+
+def view(root, into_functions: bool = True, _nodes=None, attr_ignore=()) -> HeapView:
+    nodes = _nodes if _nodes is not None else list(reflect.walk(root, into_functions=into_functions))
     index = {id(n): i for i, n in enumerate(nodes)}
     edges = []
     for n in nodes:
@@ -66,8 +100,8 @@ def view(root, into_functions: bool = True) -> HeapView:
         except TypeError:
             cls.append(i)
     fps: dict[Any, int] = {}
-    attrs = [fps.setdefault(attr_key(n), len(fps)) for n in nodes]
-    return HeapView(nodes, index, edges, cls, index[id(root)], attrs)
+    attrs = [fps.setdefault(attr_key(n, attr_ignore), len(fps)) for n in nodes]
+    return HeapView(nodes, index, edges, cls, index[id(root)] if root is not None else len(nodes) - 1, attrs)
 
 
 def _tok(v):
@@ -93,7 +127,7 @@ def _tok(v):
         return ("unhashable", id(v))
 
 
-def attr_key(n):
+def attr_key(n, ignore=()):
     """everything `==` looks at besides the node's children and its own tags, by reflection"""
     import dataclasses
 
@@ -110,7 +144,7 @@ def attr_key(n):
                 _param_tags(n.tags))
     return (type(n).__name__,) + tuple(
         (f.name, _param_tags(getattr(n, f.name)) if f.name == "tags" else _tok(getattr(n, f.name)))
-        for f in dataclasses.fields(n) if f.name != "non_equality_tags")
+        for f in dataclasses.fields(n) if f.name != "non_equality_tags" and f.name not in ignore)
 
 
 def _param_tags(tags):
